@@ -214,6 +214,81 @@ def _validate(obs, spec):
 # ---------------------------------------------------------------------------------------------------------------------
 # phases (each runs in its own process forked from the pristine image)
 
+class _FaultyFile:
+    """File object handed to the library's cache code by the injected `open`: a write beyond `after` bytes stores the part
+    that still fits and raises ENOSPC (disk full / quota); a read beyond `after` bytes raises EIO."""
+
+    def __init__(self, f, fault, state):
+        self._f, self._fault, self._state, self._n = f, fault, state, 0
+
+    def _fire(self, code, what):
+        import errno
+        self._state['fired'] = True
+        raise OSError(getattr(errno, code), f'{what} (injected)')
+
+    def write(self, b):
+        if self._fault['kind'] == 'enospc':
+            room = self._fault['after'] - self._n
+            if len(b) > room:
+                self._f.write(bytes(b[:max(0, room)]))
+                self._f.flush()
+                self._n += max(0, room)
+                self._fire('ENOSPC', 'No space left on device')
+        self._n += len(b)
+        return self._f.write(b)
+
+    def _rd(self, data):
+        self._n += len(data)
+        if self._fault['kind'] == 'eio' and self._n > self._fault['after']:
+            self._fire('EIO', 'Input/output error')
+        return data
+
+    def read(self, n=-1):
+        return self._rd(self._f.read(n))
+
+    def readline(self, n=-1):
+        return self._rd(self._f.readline(n))
+
+    def close(self):
+        self._f.close()
+
+    def flush(self):
+        self._f.flush()
+
+    def __enter__(self):
+        return self
+
+    def __exit__(self, *a):
+        self._f.close()
+        return False
+
+
+def _faulty_open(fault, state):
+    import builtins
+
+    def _open(path, mode='r', *a, **k):
+        writing = any(c in mode for c in 'wax+')
+        if fault['kind'] == 'open_fail':
+            if state['seen'] == fault.get('nth', 0):
+                state['seen'] += 1
+                state['fired'] = True
+                import errno
+                raise OSError(errno.EMFILE, 'Too many open files (injected)', str(path))
+            state['seen'] += 1
+            return builtins.open(path, mode, *a, **k)
+        if (fault['kind'] == 'enospc') != writing:
+            return builtins.open(path, mode, *a, **k)
+        state['seen'] += 1
+        if state['seen'] - 1 != fault.get('nth', 0):
+            return builtins.open(path, mode, *a, **k)
+        return _FaultyFile(builtins.open(path, mode, *a, **k), fault, state)
+    return _open
+
+
+def _io_of(op):
+    return next((e['io'] for e in op if isinstance(e, dict) and 'io' in e), None)
+
+
 def _phase(arg):
     """Executes the ops of one phase; returns list of (op index, outcome record)."""
     trace, phase_idx, cache_dir = arg
@@ -229,6 +304,10 @@ def _phase(arg):
         kind = op[0]
         rec = {'op': op}
         simenv.reset(make_plan(op[3]) if kind == 'select' else None)
+        io, io_state = _io_of(op), {'seen': 0, 'fired': False}
+        if io is not None:  # the library's cache code of this operation meets a failing disk
+            import adsg_core.optimization.assign_enc.matrix as _mx
+            _mx.open = sel.open = _faulty_open(io, io_state)
         try:
             if kind == 'select':
                 spec = trace['settings'][op[1]]
@@ -284,6 +363,9 @@ def _phase(arg):
                 rec['harness_tb'] = traceback.format_exc()[-1500:]
         finally:
             simenv.reset()
+            if io is not None:
+                del _mx.open, sel.open
+                rec['io_fired'] = io_state['fired']
         out.append(rec)
     return {'status': 'ok', 'records': out}
 
@@ -404,7 +486,7 @@ def execute(trace):
     res['stats'] = dict(stats)
     res['trace'] = trace
     nt = stats.get('fault:limiter_kill', 0) + stats.get('fault:limiter_kill_in_first_use', 0) + stats.get('fault:candidate_rejected', 0) + stats.get('probe:cache_hit', 0) \
-        + sum(v for k, v in stats.items() if k.startswith('fault:disk_'))
+        + sum(v for k, v in stats.items() if k.startswith(('fault:disk_', 'fault:io_')))
     res['nontrivial_key'] = hashlib.sha256(repr((trace['settings'], trace.get('graphs'), trace['phases'])).encode()).hexdigest()[:20] \
         if nt else None
     res['interleaving'] = hashlib.sha256(repr([[o[0] for o in p['ops']] for p in trace['phases']]).encode()).hexdigest()[:16]
@@ -424,6 +506,14 @@ def _judge(trace, pi, oi, rec, log, stats, tainted, cold_dir, env):
             stats['kill_site:' + c[1]] += 1
         elif c[3].startswith('injected:'):
             stats['fault:candidate_rejected'] += 1
+    if rec.get('io_fired'):
+        stats['fault:io_' + _io_of(op)['kind']] += 1
+        if rec['status'] == 'exc' and rec['exc'][0] == 'OSError' and '(injected)' in rec['exc'][1]:
+            # the disk error surfaced as itself: an explicit error. Nothing else is relaxed - in particular later
+            # operations and later processes must find the cache directory in a usable state
+            log.append((kind, pi, oi, 'io-error-surfaced'))
+            stats['probe:io_error_surfaced'] += 1
+            return
     if kind == 'select':
         spec = trace['settings'][op[1]]
         log.append(('select', pi, oi, rec['status'], rec.get('obs', {}).get('encoder'), rec.get('exc', (None,))[0],
@@ -454,7 +544,7 @@ def _judge(trace, pi, oi, rec, log, stats, tainted, cold_dir, env):
             stats['probe:c10_law_' + pr.kind] += 1
         # transparency: the same selection in a pristine process with an empty cache directory, caching off, same
         # fault plan, same seeds
-        if op[2] and not tainted:
+        if op[2] and not tainted and not _io_before(trace, pi, oi):
             src_phase = _producer(trace, pi, oi)
             prod_plan = trace['phases'][src_phase[0]]['ops'][src_phase[1]][3] if src_phase is not None else {}
             has_kill = prod_plan.get('mode') == 'all_first' or any(not isinstance(a, list)
@@ -548,6 +638,13 @@ def _judge(trace, pi, oi, rec, log, stats, tainted, cold_dir, env):
             raise Viol(f'C12/{kind}-raises/{rec["exc"][0]}', f'{where}: {rec["exc"]}')
 
 
+def _io_before(trace, pi, oi):
+    """An operation up to (pi, oi) ran with a failing disk: which selection wrote the cache entry is then not known
+    statically (a failed write stores nothing), so the transparency comparison has no well-defined twin."""
+    return any(_io_of(o) is not None for a, p in enumerate(trace['phases']) for b, o in enumerate(p['ops'])
+               if (a, b) <= (pi, oi))
+
+
 def _sem(spec):
     """What a settings spec denotes: per existence pattern (addressed by index) its valid connection matrices. Two specs
     are different settings exactly if this differs (an implementation may normalise equivalent spellings to one key)."""
@@ -590,7 +687,7 @@ def _cold_proc(trace, op, cold_dir):
 def _cold_phase(arg):
     trace, src, cold_dir = arg
     t = {'settings': trace['settings'], 'env_seed': trace['env_seed'],
-         'phases': [{'ops': [trace['phases'][src[0]]['ops'][src[1]][:2] + [False] + trace['phases'][src[0]]['ops'][src[1]][3:]]}]}
+         'phases': [{'ops': [trace['phases'][src[0]]['ops'][src[1]][:2] + [False] + trace['phases'][src[0]]['ops'][src[1]][3:5]]}]}
     return _phase((t, 0, cold_dir))
 
 
@@ -683,6 +780,36 @@ def generate_keys(seed, tier='quick', index=0):
         phases.append({'ops': ops, 'disk_faults': []})
     return {'property': PROPERTY, 'engine': ENGINE, 'seed': seed, 'settings': settings, 'phases': phases,
             'env_seed': s.int_seed('env'), 'config': 'in-contract'}
+
+
+def generate_io(seed, tier='quick', index=0):
+    """Failing disk inside operations: one or two cache-touching operations of a session run with an `open` that fails
+    (EMFILE), a write that hits a full disk after n bytes (ENOSPC, the part that fits is on disk) or a read that fails
+    after n bytes (EIO). The faulted operation may raise that OSError; everything afterwards - the same process, and a
+    fresh process on the same directory - is judged as if nothing had happened (a failed write must not poison the
+    cache)."""
+    t = generate(seed, tier, index)
+    s = Streams(seed)
+    frng = s('io')
+    cands = [(pi, oi) for pi, p in enumerate(t['phases']) for oi, op in enumerate(p['ops']) if op[0] in ('select', 'agg', 'iter')]
+    if not cands:
+        t['phases'][0]['ops'].append(['select', 0, True, {'mode': 'none'}, True])
+        cands = [(0, len(t['phases'][0]['ops']) - 1)]
+    touched = set()
+    for pi, oi in frng.sample(cands, min(len(cands), frng.randint(1, 2))):
+        op = t['phases'][pi]['ops'][oi]
+        if op[0] in ('select', 'agg'):
+            op[2] = True  # through the cache
+        kind = frng.choice(['enospc', 'enospc', 'enospc', 'eio', 'open_fail'])
+        op.append({'io': {'kind': kind, 'nth': frng.choice([0, 0, 0, 1, 2]),
+                          'after': frng.choice([0, 1, 7, 40, 100, 300, 1000, 4000])}})
+        touched.add(op[1])
+    # afterwards, in a fresh process: the settings whose operations met the failing disk are used through the cache
+    t['phases'].append({'ops': [o for si in sorted(touched) for o in (['select', si, True, {'mode': 'none'}, True],
+                                                                      ['agg', si, True], ['iter', si, 0])],
+                        'disk_faults': []})
+    t['config'] = 'io-faults'
+    return t
 
 
 def generate_disk(seed, tier='quick', index=0):
@@ -855,6 +982,10 @@ def shrink_candidates(trace):
                 del c['phases'][pi]['ops'][oi]
                 yield c
             op = t['phases'][pi]['ops'][oi]
+            if _io_of(op) is not None:
+                c = copy.deepcopy(t)
+                c['phases'][pi]['ops'][oi] = [e for e in op if not (isinstance(e, dict) and 'io' in e)]
+                yield c
             if op[0] == 'select':
                 if op[3].get('mode') != 'none':
                     c = copy.deepcopy(t)
@@ -880,6 +1011,10 @@ def shrink_candidates(trace):
                         op[1] -= 1
             yield c
     for si, sp in enumerate(t['settings']):
+        if sp.get('max_par') is not None:
+            c = copy.deepcopy(t)
+            del c['settings'][si]['max_par']
+            yield c
         if sp.get('patterns'):
             c = copy.deepcopy(t)
             c['settings'][si]['patterns'] = None
@@ -930,7 +1065,9 @@ def trace_size(trace):
     return (sum(ssize(s) for s in trace['settings']) + 30 * len(trace['phases'])
             + sum(10 + (5 * len(op[3].get('map', {})) + (3 if op[3].get('mode') != 'none' else 0) if op[0] == 'select' else 0)
                   for p in trace['phases'] for op in p['ops'])
-            + sum(8 * len(p.get('disk_faults', [])) for p in trace['phases']))
+            + sum(8 * len(p.get('disk_faults', [])) for p in trace['phases'])
+            + sum(6 for p in trace['phases'] for op in p['ops'] if _io_of(op) is not None)
+            + sum(2 for sp in trace['settings'] if sp.get('max_par') is not None))
 
 
 def signature(trace, result):
@@ -940,6 +1077,8 @@ def signature(trace, result):
         for f in p.get('disk_faults', []):
             faults.add('disk:' + f['kind'])
         for op in p['ops']:
+            if _io_of(op) is not None:
+                faults.add('io:' + _io_of(op)['kind'])
             if op[0] == 'select' and op[3].get('mode') != 'none':
                 if op[3]['mode'] == 'all_first':
                     faults.add('kill-all')
@@ -965,7 +1104,10 @@ RULE = ('Runs: (a) in-contract sessions over 1-3 generated connector settings (i
         'cache under the same fault plan; (a2) cache-key families: up to 8 settings grown from one base by single-attribute '
         'edits (degrees, repetition flag, exclusions, patterns added/removed/permuted, transpose, explicit vs unset parallel '
         'limit) - settings that denote different connection sets (R-conn) must have different keys, and members fill and '
-        'read the matrix caches one after the other in two processes; (b) the same with cache files torn/lost/flipped between phases (explicit errors '
+        'read the matrix caches one after the other in two processes; (a3) failing disk inside operations: the open() of the cache code fails (EMFILE), a '
+        'cache write hits a full disk after n bytes (ENOSPC, the prefix is on disk) or a cache read fails after n bytes (EIO); '
+        'the faulted operation may raise that OSError, everything afterwards (same process, fresh process on the same '
+        'directory) is judged as if nothing had happened; (b) the same with cache files torn/lost/flipped between phases (explicit errors '
         'accepted, wrong data never); (c) kill-point enumeration: every (strided) delivery point of one limited call of a '
         'cold selection, then an unlimited selection through the cache in a fresh process. evaluations = sessions / '
         'enumeration sub-runs completed; non-trivial = a limiter kill, a candidate rejection, a cache hit or a disk fault '
@@ -973,7 +1115,8 @@ RULE = ('Runs: (a) in-contract sessions over 1-3 generated connector settings (i
 COMPONENTS = {'real': ['EncoderSelector, all registered encoders and imputers, AggregateAssignmentMatrixGenerator, '
                        'cache.py, pickle files on a real (private, tmpfs) directory, numba kernels'],
               'stub': ['run_timeout -> virtual limiter (kill at delivery point k / candidate raises)', 'process restarts = '
-                       'fresh forks of the pristine image', 'disk faults applied to the cache directory between phases',
+                       'fresh forks of the pristine image', 'disk faults applied to the cache directory between phases', 'builtins.open as seen by matrix.py / selector.py -> '
+                       'fault-injecting file object (ENOSPC after n bytes, EIO after n bytes, EMFILE) for single operations',
                        'np.random / random seeds']}
 ASSUMPTIONS = ['R-conn: per-pair cap = 0 (excluded) / 1 (an end forbids repetition) / min of the parallel limit and the two '
                'maximum degrees; the parallel limit is the explicit max_conn_parallel or, when unset, max(2, largest degree '
@@ -988,7 +1131,7 @@ DETERMINISM_RERUNS = {'quick': 4, 'thorough': 16}
 def jobs(tier, batch_seed):
     from simkit.driver import std_jobs
     if tier == 'thorough':
-        return std_jobs([('generate_enum', 32), ('generate_bridge', 48), ('generate_keys', 4000), ('generate', 20000),
-                         ('generate_disk', 6000)], batch_seed)
-    return std_jobs([('generate_enum', 2), ('generate_bridge', 3), ('generate_keys', 60), ('generate', 130),
-                     ('generate_disk', 40)], batch_seed)
+        return std_jobs([('generate_enum', 32), ('generate_bridge', 48), ('generate_keys', 4000), ('generate_io', 6000),
+                         ('generate', 20000), ('generate_disk', 6000)], batch_seed)
+    return std_jobs([('generate_enum', 2), ('generate_bridge', 3), ('generate_keys', 60), ('generate_io', 50), ('generate', 110),
+                     ('generate_disk', 30)], batch_seed)
